@@ -189,9 +189,20 @@ C07a(cx, s) ==
   V(Alive(s) /\ s.ready # {} /\ (s.failed \cup s.upf) # {},
     /\ \A j \in s.ready : Ups(cx.c, j) \cap (s.failed \cup (s.upf \ s.skipev)) = {}
     /\ s.ready \cap Blocked(cx.c, s.failed, s.started, s.skipev) = {})
+(* At the end: every job that was never started and depends on a failed job - directly or through
+   other never-started jobs, validly skipped ones included - is reported upstream-failed. *)
 C07b(cx, s) ==
   V(Alive(s) /\ s.fin /\ ~s.aborted /\ s.failed # {},
-    \A j \in Blocked(cx.c, s.failed, s.started, s.skipev) \ cx.leafy : j \in s.upf)
+    \A j \in Blocked(cx.c, s.failed, s.started, {}) \ cx.leafy :
+       \* a job that had been validly skipped before the failure reached it was settled, not
+       \* prevented from running: it may keep that label (the engine relabels Outputs)
+       j \in s.upf \/ j \in s.skipev)
+(* No such job is NEWLY offered at or after the failure.  (An offer made before the failure - to a
+   dependant of an Output that had been validly skipped and is only relabelled by the failure -
+   cannot be taken back: the driver may be starting that job; C07a tolerates exactly those.) *)
+C07f(cx, pre, post) ==
+  V(Alive(post) /\ post.failed # {} /\ post.ready \ pre.ready # {},
+    (post.ready \ pre.ready) \cap Blocked(cx.c, post.failed, post.started, {}) = {})
 C07c(cx, s) == V(Alive(s) /\ s.upf # {}, s.upf \cap s.started = {})
 C07d(cx, s) ==
   V(Alive(s) /\ s.upf # {},
